@@ -8,10 +8,11 @@ ROOT = os.path.dirname(os.path.dirname(os.path.abspath(__file__)))
 sys.path.insert(0, os.path.join(ROOT, "harness"))
 ids = [json.loads(l)["id"] for l in open(os.path.join(ROOT, "properties.jsonl"))]
 na_reasons = json.load(open(os.path.join(ROOT, "tools", "not_applicable.json")))
+claimed = json.load(open(os.path.join(ROOT, "tools", "claimed.json")))
 checks, na = [], []
 for pid in ids:
     path = os.path.join(ROOT, "harness", "props", pid + ".py")
-    if os.path.exists(path) and pid not in na_reasons.get("_force", []):
+    if os.path.exists(path) and pid in claimed:
         m = importlib.import_module("props." + pid).META
         checks.append({
             "property_id": pid,
